@@ -32,17 +32,27 @@ def run(ctx):
     f = prog.fn1(R + 'read')
     ctx.saw(f)
     cfg = f.cfg
-    bufs = [n for n in f.all_nodes() if n.k == 'DeclStmt' and any(f.tu.decls[d]['n'] == 'msg_buf' for d, _ in n.r['decls'])]
-    ctx.need(len(bufs) == 1, 'msg_buf not found')
-    bufd = bufs[0].r['decls'][0][0]
-    cap = f.tu.types[f.tu.decls[bufd]['t']].get('n')
-    ctx.need(cap is not None, 'msg_buf has no constant size')
+    # the frame buffer: the array the fixed-size preamble is read into (a local of read() or a member of the reader)
+    pre = [c for c in f.calls_to(R + 'sockRead') if c.args[1].strip(casts=True).text().endswith('_bg_sz')]
+    ctx.need(len(pre) == 1, 'preamble read sockRead(buffer, _bg_sz) not found')
+    b0 = pre[0].args[0].strip(casts=True)
+    ctx.need(b0.k in ('DeclRefExpr', 'MemberExpr') and (b0.type or {}).get('k') == 'array' or q.array_capacity(pre[0].args[0]) is not None,
+             'the preamble is not read into an array: ' + pre[0].args[0].text())
+    cap = q.array_capacity(pre[0].args[0])
+    ctx.need(cap is not None, 'frame buffer has no constant size')
+    buf_key = ('d', b0.declid) if b0.k == 'DeclRefExpr' else ('m', b0.decl.get('qp'))
+
+    def is_buf(x):
+        s_ = x.strip(casts=True)
+        if buf_key[0] == 'd':
+            return s_.k == 'DeclRefExpr' and s_.declid == buf_key[1]
+        return s_.k == 'MemberExpr' and s_.decl is not None and s_.decl.get('qp') == buf_key[1]
     enumv = {}
     for e in prog.tus[0].enums:
         for n, v in e['e']:
             if n in ('_max_msg_len', '_chksum_sz'):
                 enumv[n] = v
-    ctx.need(enumv.get('_max_msg_len') == cap, 'msg_buf size (%s) differs from _max_msg_len (%s)' % (cap, enumv.get('_max_msg_len')))
+    ctx.need(enumv.get('_max_msg_len') == cap, 'frame buffer size (%s) differs from _max_msg_len (%s)' % (cap, enumv.get('_max_msg_len')))
     reads = f.calls_to(R + 'sockRead')
     ctx.need(len(reads) >= 3, 'expected at least 3 sockRead calls in read() (byte-wise preamble, preamble, frame), found %d' % len(reads))
     trues = [(v, n) for (v, kind, n) in cfg.exits() if kind == 'return' and q.return_value(n) == 1]
@@ -52,7 +62,7 @@ def run(ctx):
     # ---------------- R15.1
     for i, c in enumerate(reads):
         dest, n = c.args[0], c.args[1]
-        lf = q.linear(dest, sym=lambda x: 'BUF' if q.refers_to_decl(x, bufd) else x.text())
+        lf = q.linear(dest, sym=lambda x: 'BUF' if is_buf(x) else x.text())
         if 'BUF' not in lf.t:
             d = dest.strip(casts=True)
             one = d.k == 'UnaryOperator' and d.op == '&' and n.strip(casts=True).value == 1
@@ -95,7 +105,7 @@ def run(ctx):
                   'sockRead(%s, %s) is not bounded by the %d-byte buffer through constants or dominating guards' % (dest.text(), n.text(), cap))
     # the byte-wise store msg_buf[offs++] = bt
     st = [n for n in f.all_nodes() if n.k == 'BinaryOperator' and n.op == '=' and n.children[0].strip().k == 'ArraySubscriptExpr' and
-          q.refers_to_decl(n.children[0].strip().children[0], bufd)]
+          is_buf(n.children[0].strip().children[0])]
     ctx.need(len(st) == 1, 'byte store into msg_buf not found')
     loop = [n for n in f.all_nodes() if n.k == 'DoStmt']
     ctx.need(len(loop) == 1, 'preamble do-while not found')
@@ -172,18 +182,18 @@ def run(ctx):
         ne = [x for x in s.walk() if x.k == 'BinaryOperator' and x.op == '!=' and any(y in reads for y in x.children[0].walk())]
         if ne and pol is False:
             rd = [y for y in ne[0].children[0].walk() if y in reads][0]
-            if not any(q.refers_to_decl(x, bufd) for x in rd.args[0].walk() if x.k == 'DeclRefExpr') or rd.args[1].strip(casts=True).text() == '_bg_sz':
+            if not any(is_buf(x) for x in rd.args[0].walk() if x.k in ('DeclRefExpr', 'MemberExpr')) or rd.args[1].strip(casts=True).text().endswith('_bg_sz'):
                 continue
             if q.same_expr(ne[0].children[1], rd.args[1]) or ne[0].children[1].strip(casts=True).text().endswith(rd.args[1].strip(casts=True).text()):
                 okfull += 1
-    frame_reads = [rd for rd in reads if any(q.refers_to_decl(x, bufd) for x in rd.args[0].walk() if x.k == 'DeclRefExpr') and rd.args[1].strip(casts=True).text() != '_bg_sz']
+    frame_reads = [rd for rd in reads if any(is_buf(x) for x in rd.args[0].walk() if x.k in ('DeclRefExpr', 'MemberExpr')) and not rd.args[1].strip(casts=True).text().endswith('_bg_sz')]
     ctx.check(frame_reads and okfull == len(frame_reads), 'R15.3', R + 'read#accept.complete-reads', f.loc,
               'accepted only when every read of the frame (body, checksum) returned the full requested length (%d read(s))' % len(frame_reads))
     app = [c for c in f.calls() if c.callee is not None and c.callee.get('n') == 'append' and q.refers_to_decl(c.obj, f.param_ids[0])]
     okapp = False
     if len(app) == 1 and cfg.dominates(cfg.vertex_of(app[0]), tv):
         lf = q.linear(app[0].args[1], sym=lambda x: 'MLEN' if q.refers_to_decl(x, mlend) else x.text())
-        okapp = q.refers_to_decl(app[0].args[0], bufd) and lf.t == {'MLEN': 1} and lf.c == enumv.get('_chksum_sz')
+        okapp = is_buf(app[0].args[0]) and lf.t == {'MLEN': 1} and lf.c == enumv.get('_chksum_sz')
     ctx.check(okapp, 'R15.3', R + 'read#append.count', f.loc, 'exactly BodyLength + %s bytes of the frame buffer are appended to the preamble' % enumv.get('_chksum_sz'))
 
     # ---------------- R15.4 digits, and few enough of them
